@@ -9,6 +9,7 @@ import (
 	"math"
 	"math/big"
 	"math/bits"
+	"regexp"
 	"strconv"
 	"strings"
 
@@ -197,8 +198,64 @@ func (e *Exec) intrinsic(caller *frame, fn *ssa.Function, name string, args []Va
 	case "runtime.Gosched":
 		e.yield()
 		return nil, true
+	case "regexp.MustCompile":
+		return Native{regexp.MustCompile(e.strArg(args[0]))}, true
+	case "(*regexp.Regexp).Match":
+		return args[0].(Native).V.(*regexp.Regexp).Match(e.bytesArg(args[1])), true
+	case "(*regexp.Regexp).MatchString":
+		return args[0].(Native).V.(*regexp.Regexp).MatchString(e.strArg(args[1])), true
+	case "(*regexp.Regexp).FindStringSubmatch":
+		r := args[0].(Native).V.(*regexp.Regexp).FindStringSubmatch(e.strArg(args[1]))
+		if r == nil {
+			return Slice{Nil: true}, true
+		}
+		a := make([]Value, len(r))
+		for i := range r {
+			a[i] = r[i]
+		}
+		return Slice{A: a}, true
+	case "strings.ToLower":
+		return strings.ToLower(e.strArg(args[0])), true
+	case "strings.ToUpper":
+		return strings.ToUpper(e.strArg(args[0])), true
+	case "strings.Contains":
+		return strings.Contains(e.strArg(args[0]), e.strArg(args[1])), true
+	case "strings.HasPrefix":
+		return strings.HasPrefix(e.strArg(args[0]), e.strArg(args[1])), true
+	case "strings.HasSuffix":
+		return strings.HasSuffix(e.strArg(args[0]), e.strArg(args[1])), true
+	case "strings.Repeat":
+		return strings.Repeat(e.strArg(args[0]), int(int64(e.concInt(args[1], types.Typ[types.Int])))), true
+	case "strconv.ParseUint":
+		v, err := strconv.ParseUint(e.strArg(args[0]), int(int64(args[1].(uint64))), int(int64(args[2].(uint64))))
+		if err != nil {
+			return Tuple{v, e.newError(err.Error())}, true
+		}
+		return Tuple{v, Iface{}}, true
+	case "strconv.ParseInt":
+		v, err := strconv.ParseInt(e.strArg(args[0]), int(int64(args[1].(uint64))), int(int64(args[2].(uint64))))
+		if err != nil {
+			return Tuple{uint64(v), e.newError(err.Error())}, true
+		}
+		return Tuple{uint64(v), Iface{}}, true
 	}
 	return nil, false
+}
+
+// Native wraps an opaque natively evaluated object (e.g. a compiled regular expression).
+type Native struct{ V any }
+
+func (e *Exec) bytesArg(v Value) []byte {
+	s := v.(Slice)
+	b := make([]byte, len(s.A))
+	for i := range s.A {
+		c, ok := s.A[i].(uint64)
+		if !ok {
+			e.unsupported("symbolic byte in native call")
+		}
+		b[i] = byte(c)
+	}
+	return b
 }
 
 var intrinsicNames = []string{
@@ -211,6 +268,9 @@ var intrinsicNames = []string{
 	"(*sync.WaitGroup).Add", "(*sync.WaitGroup).Done", "(*sync.WaitGroup).Wait",
 	"(*sync.Mutex).Lock", "(*sync.Mutex).Unlock", "(*sync.RWMutex).Lock", "(*sync.RWMutex).Unlock", "(*sync.RWMutex).RLock", "(*sync.RWMutex).RUnlock",
 	"runtime.Gosched",
+	"regexp.MustCompile", "(*regexp.Regexp).Match", "(*regexp.Regexp).MatchString", "(*regexp.Regexp).FindStringSubmatch",
+	"strings.ToLower", "strings.ToUpper", "strings.Contains", "strings.HasPrefix", "strings.HasSuffix", "strings.Repeat",
+	"strconv.ParseUint", "strconv.ParseInt",
 }
 
 // ---------------------------------------------------------------- harness API
@@ -253,6 +313,16 @@ func (e *Exec) harnessAPI(caller *frame, fn *ssa.Function, short string, args []
 		}
 		t := e.declareInput(name, SInt, 0, lo, hi, "dyadic:"+strconv.Itoa(shift))
 		return e.ratFinish(t, pow2(shift), false), true
+	case "verifFloatOfInt1e10":
+		switch n := args[0].(type) {
+		case uint64:
+			return float64(int64(n)) / 1e10, true
+		case *Term:
+			if e.mode != ModeMath {
+				e.unsupported("verifFloatOfInt1e10 needs math mode")
+			}
+			return &Rat{Num: n, Den: big.NewInt(10000000000), Inexact: true, Scaled: n}, true
+		}
 	case "verifNondetFloat64":
 		if e.mode != ModeBits {
 			e.unsupported("verifNondetFloat64 needs bits mode")
